@@ -4,7 +4,7 @@ by=collections.defaultdict(list)
 for p in glob.glob('/verif/replays/%s/*.json'%prop):
     d=json.load(open(p)); i=d['inputs'] or {}
     facts=''.join(k if i.get(k) else '' for k in ['A','SG','HN','BN','CG','CD','PG','PD','UB']) if 'A' in i else json.dumps({k:v for k,v in i.items() if k not in('old','ev')})[:150]
-    by[d['obligation']].append((i.get('old'),i.get('ev'),facts,d.get('native_replay'),json.dumps(d.get('observed'))[:120]))
+    by[d['obligation']].append((i.get('old'),i.get('ev',i.get('req')),facts,d.get('native_replay'),json.dumps(d.get('observed'))[:120]))
 for k,v in sorted(by.items()):
     print(k)
     for x in sorted(set(v), key=str): print('   ',x)
